@@ -4,6 +4,7 @@ call-level trace validation (B2)."""
 import hashlib
 import json
 import os
+import shutil
 
 import subprocess
 
@@ -126,6 +127,39 @@ def mc(ck, module, name, constants, invariants, properties=(), view=None, timeou
                       "kind": "tlc-counterexample", "module": module, "constants": constants,
                       "trace": lines[idx:idx + 120]})
     return res
+
+
+def apalache_inductive(ck, module, name, init="Init", ind_init="IndInit", ind_inv="IndInv", safety="Safety",
+                       timeout=900):
+    """Unbounded safety of an integer model by an inductive invariant, discharged by Apalache:
+    Init => IndInv, IndInv /\\ Next => IndInv', IndInv => Safety."""
+    import subprocess
+    import time as _t
+    od = os.path.join(WORK, "apa_" + name)
+    shutil.rmtree(od, ignore_errors=True)
+    steps = [("base: Init => IndInv", ["--init=" + init, "--inv=" + ind_inv, "--length=0"]),
+             ("step: IndInv /\\ Next => IndInv'", ["--init=" + ind_init, "--inv=" + ind_inv, "--length=1"]),
+             ("IndInv => Safety", ["--init=" + ind_init, "--inv=" + safety, "--length=0"]),
+             ("reachable states satisfy IndInv (6 steps)", ["--init=" + init, "--inv=" + ind_inv, "--length=6"])]
+    t0 = _t.time()
+    outcomes = []
+    for what, args in steps:
+        try:
+            p = subprocess.run(["apalache-mc", "check"] + args + ["--out-dir=" + od, module + ".tla"], cwd=SPEC,
+                               stdout=subprocess.PIPE, stderr=subprocess.STDOUT, text=True, timeout=timeout)
+        except subprocess.TimeoutExpired:
+            raise ToolError("apalache timed out on %s (%s)" % (module, what))
+        if "The outcome is: NoError" in p.stdout:
+            outcomes.append([what, "NoError"])
+        elif "The outcome is: Error" in p.stdout and "invariant" in p.stdout:
+            outcomes.append([what, "Error"])
+            ck.violation("the model %s fails its inductive-invariant obligation: %s" % (module, what),
+                         {"signature": "apalache:%s:%s" % (module, what), "kind": "apalache-counterexample",
+                          "module": module, "obligation": what, "log": p.stdout.splitlines()[-25:]})
+        else:
+            raise ToolError("apalache failed on %s (%s): %s" % (module, what, p.stdout[-600:]))
+    ck.evaluations += len(steps)
+    ck.stage("proof:" + module, engine="apalache", obligations=outcomes, wall=round(_t.time() - t0, 1))
 
 
 def product(ck, name, families, full=False, shards=2, timeout=3000, mks=("std", "lf", "ll")):
